@@ -20,10 +20,15 @@
    Checked: the scheduler never stops while a unit of its pool is unfinished,
    and num_blocked never goes negative.
 
+   EarlyReturn = TRUE models a scheduler whose run() may return right after
+   running a unit, without the stop test (BASIC_WAIT before fix 8d8da3b,
+   defect S4): the main-scheduler loop then tests "FINISH requested and no
+   unit" only ONCE, and that single evaluation can miss a ULT in transit.
+
    DecFirst = TRUE is the reordered resume (decrement, then push): TLC must
    find a run in which the scheduler stops while a ULT is in transit.        *)
 EXTENDS Naturals, Integers, FiniteSets
-CONSTANTS Units, DecFirst, MaxSusp
+CONSTANTS Units, DecFirst, MaxSusp, EarlyReturn
 VARIABLES spc,       \* scheduler program counter
           cur,       \* unit running on the stream (0 = none)
           queue,     \* units in the pool (a set: the order does not matter here)
@@ -43,15 +48,16 @@ Pop == /\ spc = "pop" /\ ~stopped
        /\ IF queue = {} THEN spc' = "h1" /\ UNCHANGED <<cur, queue, st>>
           ELSE \E u \in queue : /\ queue' = queue \ {u} /\ cur' = u /\ st' = [st EXCEPT ![u] = "running"] /\ spc' = "run"
        /\ UNCHANGED <<nb, pend, nsusp, req, seenEmpty, stopped>>
-Finish == /\ spc = "run" /\ st' = [st EXCEPT ![cur] = "done"] /\ cur' = 0 /\ spc' = "pop"
+AfterUnit == IF EarlyReturn THEN {"pop", "m0"} ELSE {"pop"}
+Finish == /\ spc = "run" /\ st' = [st EXCEPT ![cur] = "done"] /\ cur' = 0 /\ spc' \in AfterUnit
           /\ UNCHANGED <<queue, nb, pend, nsusp, req, seenEmpty, stopped>>
-Yield == /\ spc = "run" /\ st' = [st EXCEPT ![cur] = "pool"] /\ queue' = queue \cup {cur} /\ cur' = 0 /\ spc' = "pop"
+Yield == /\ spc = "run" /\ st' = [st EXCEPT ![cur] = "pool"] /\ queue' = queue \cup {cur} /\ cur' = 0 /\ spc' \in AfterUnit
          /\ UNCHANGED <<nb, pend, nsusp, req, seenEmpty, stopped>>
 \* suspend: the callback runs on this stream after the switch
 SuspendInc == /\ spc = "run" /\ nsusp[cur] < MaxSusp /\ nb' = nb + 1 /\ st' = [st EXCEPT ![cur] = "blocking"] /\ spc' = "susp2"
               /\ nsusp' = [nsusp EXCEPT ![cur] = @ + 1]
               /\ UNCHANGED <<cur, queue, pend, req, seenEmpty, stopped>>
-SuspendPublish == /\ spc = "susp2" /\ st' = [st EXCEPT ![cur] = "blocked"] /\ cur' = 0 /\ spc' = "pop"
+SuspendPublish == /\ spc = "susp2" /\ st' = [st EXCEPT ![cur] = "blocked"] /\ cur' = 0 /\ spc' \in AfterUnit
                   /\ UNCHANGED <<queue, nb, pend, nsusp, req, seenEmpty, stopped>>
 \* the stop test: has_unit() = is_empty, then num_blocked; twice if FINISH is requested
 H1 == /\ spc = "h1" /\ spc' = (IF queue = {} THEN "h2" ELSE "pop") /\ UNCHANGED <<cur, queue, nb, st, pend, nsusp, req, seenEmpty, stopped>>
@@ -59,6 +65,11 @@ H2 == /\ spc = "h2" /\ spc' = (IF nb = 0 THEN "hreq" ELSE "pop") /\ UNCHANGED <<
 HReq == /\ spc = "hreq" /\ spc' = (IF req THEN "h3" ELSE "pop") /\ UNCHANGED <<cur, queue, nb, st, pend, nsusp, req, seenEmpty, stopped>>
 H3 == /\ spc = "h3" /\ spc' = (IF queue = {} THEN "h4" ELSE "pop") /\ UNCHANGED <<cur, queue, nb, st, pend, nsusp, req, seenEmpty, stopped>>
 H4 == /\ spc = "h4" /\ (IF nb = 0 THEN stopped' = TRUE /\ spc' = "end" ELSE stopped' = stopped /\ spc' = "pop")
+      /\ UNCHANGED <<cur, queue, nb, st, pend, nsusp, req, seenEmpty>>
+\* the main-scheduler loop after run() returned: request, then ONE evaluation of has_unit()
+M0 == /\ spc = "m0" /\ spc' = (IF req THEN "m1" ELSE "pop") /\ UNCHANGED <<cur, queue, nb, st, pend, nsusp, req, seenEmpty, stopped>>
+M1 == /\ spc = "m1" /\ spc' = (IF queue = {} THEN "m2" ELSE "pop") /\ UNCHANGED <<cur, queue, nb, st, pend, nsusp, req, seenEmpty, stopped>>
+M2 == /\ spc = "m2" /\ (IF nb = 0 THEN stopped' = TRUE /\ spc' = "end" ELSE stopped' = stopped /\ spc' = "pop")
       /\ UNCHANGED <<cur, queue, nb, st, pend, nsusp, req, seenEmpty>>
 \* ---- other threads
 Join == ~req /\ req' = TRUE /\ UNCHANGED <<spc, cur, queue, nb, st, pend, nsusp, seenEmpty, stopped>>
@@ -73,7 +84,7 @@ Resume2(u) == /\ pend[u] > 0
                              ELSE nb' = nb - 1 /\ UNCHANGED <<queue, st>>
               /\ pend' = [pend EXCEPT ![u] = @ - 1]
               /\ UNCHANGED <<spc, cur, nsusp, req, seenEmpty, stopped>>
-Next == Pop \/ Finish \/ Yield \/ SuspendInc \/ SuspendPublish \/ H1 \/ H2 \/ HReq \/ H3 \/ H4 \/ Join
+Next == M0 \/ M1 \/ M2 \/ Pop \/ Finish \/ Yield \/ SuspendInc \/ SuspendPublish \/ H1 \/ H2 \/ HReq \/ H3 \/ H4 \/ Join
         \/ \E u \in Units : Resume1(u) \/ Resume2(u)
 Spec == Init /\ [][Next]_vars
 \* with the as-coded order a unit that was popped while being resumed may already run: "resuming2" units are in the queue or beyond
